@@ -136,8 +136,9 @@ class _Optimizer(Optimizer):
         r'''
         params will be updated by calling this function
         '''
-        steps = step.split([p.numel() for p in params if p.requires_grad])
-        [p.add_(d.view(p.shape)) for p, d in zip(params, steps) if p.requires_grad]
+        params = [p for p in params if p.requires_grad]
+        steps = step.split([p.numel() for p in params])
+        [p.add_(d.view(p.shape)) for p, d in zip(params, steps)]
 
 
 class GaussNewton(_Optimizer):
@@ -484,14 +485,11 @@ class LevenbergMarquardt(_Optimizer):
 
     def update_parameter(self, params, step):
         if getattr(self, 'sparse', False):
-            numels = []
-            for param in params:
-                if param.requires_grad:
-                    numels.append(_parameter_update_shape(param).numel())
+            params = [param for param in params if param.requires_grad]
+            numels = [_parameter_update_shape(param).numel() for param in params]
             steps = step.split(numels)
             for (param, d) in zip(params, steps):
-                if param.requires_grad:
-                    param.add_(d.view(_parameter_update_shape(param)))
+                param.add_(d.view(_parameter_update_shape(param)))
         else:
             super().update_parameter(params, step)
 
